@@ -434,9 +434,29 @@ def c16_sequence(rec, rng, kind, length, case):
     cls = {"data3D": tdfData3D.MarkerTrack, "force3D": tdfForce3D.ForceTorqueTrack, "emg": tdfEMG.EMGTrack}[kind]
     shadow = []
     used_channels = set()
+    # a sibling block with a different number of frames: one caller-owned list is (validly) assigned to both, after
+    # which valid additions to either must not surface in the other
+    sib, sib_n, sib_shadow = None, n + rng.randint(1, 3), []
+    if kind != "emg":
+        sib = type(blk)(100, sib_n, np.ones(3, np.float32), np.eye(3, dtype=np.float32), np.zeros(3, np.float32))
 
     def V(key, msg):
         rec.violation("C16", f"{kind}:{key}", f"[n={n}, after {steps}] {msg}", dict(case, steps=list(steps)))
+
+    def sibling_invariant():
+        if sib is None:
+            return True
+        cur_s, err_s = observe_tracks(kind, sib)
+        rec.count("oracle:C16.sibling-invariant")
+        if err_s:
+            V("accessors-disagree", "sibling: " + err_s); return False
+        for t_ in cur_s:
+            if frames_of(kind, t_) != sib_n:
+                V("wrong-length-inside", f"a second block of {sib_n} frames, assigned the same caller list, now holds a "
+                  f"track of {frames_of(kind, t_)} frames"); return False
+        if ident(cur_s) != ident(sib_shadow):
+            V("tracks-differ-from-history", f"second block: {len(cur_s)} tracks, its own history says {len(sib_shadow)}"); return False
+        return True
 
     def invariant():
         cur, err = observe_tracks(kind, blk)
@@ -474,6 +494,24 @@ def c16_sequence(rec, rng, kind, length, case):
                 V(f"add:{why.split('(')[0]}:accepted", f"{why} was accepted{' (explicit channel)' if chan else ''}"); return
             except Exception:
                 pass
+        elif kind != "emg" and r < 0.63:
+            # one caller-owned list, valid for both blocks (empty, so any frame count fits), assigned to both
+            shared_list = []
+            steps.append("tracks=<L>; sibling.tracks=<same L> (L empty)")
+            try:
+                blk.tracks = shared_list
+                sib.tracks = shared_list
+            except Exception as e:
+                V("assign:valid-list-refused", f"empty list: {type(e).__name__}: {e}"); return
+            shadow, sib_shadow = [], []
+            for _q in range(rng.randint(0, 2)):
+                ts = lib.build_item(kind, {"label": "s", "frames": gen.rframes(rng, [True] * sib_n, {"data3D": 3, "force3D": 9}[kind])}, {})
+                steps.append("sibling.add(valid)")
+                try:
+                    sib.add_track(ts)
+                except Exception as e:
+                    V("valid-track-refused", f"sibling: {type(e).__name__}: {e}"); return
+                sib_shadow.append(ts)
         elif kind != "emg" and r < 0.66 and shadow:
             # a list of *other objects with equal content* (copies): the assignment installs exactly those objects
             import copy as _copy
@@ -579,6 +617,8 @@ def c16_sequence(rec, rng, kind, length, case):
             return
         if ident(cur) != ident(shadow):
             V("tracks-differ-from-history", f"{len(cur)} tracks, history says {len(shadow)}"); return
+        if not sibling_invariant():
+            return
 
 
 def shard_c16(desc, rec):
@@ -689,6 +729,10 @@ def _c18_probe(rec, rng, kind, blk, labels, k, V):
             V("out-of-range-index-returns", f"[{i}] returned {got!r} with {k} items"); return False
     # label keys
     probes = set(labs) | {"a", "A", " a", "a ", "", "dup", "DUP", "zzz", "é", "e", "x" * 254}
+    # keys no stored label can equal: not Windows-1252, over-long, or carrying a NUL after a real label
+    probes |= {"Ω", "日本", "\U0001F600", "e\u0301", "\x81", "x" * 300, "\x00"}
+    for lb_ in list(labs)[:3]:
+        probes |= {lb_ + "\x00", lb_ + "\x00tail", lb_ + " ", lb_[:-1] if lb_ else "?"}
     for lb in sorted(probes):
         rec.count("oracle:C18.label")
         try:
@@ -750,6 +794,22 @@ def _c18_probe(rec, rng, kind, blk, labels, k, V):
             pass
         except Exception as e:
             V("item-as-key-wrong-exception", f"{type(e).__name__}"); return False
+    # several iterations alive at once: each yields every item, in order, independently of the others
+    import itertools
+    rec.count("oracle:C18.interleaved-iterations")
+    cap = k + 3
+    it1 = iter(blk)
+    head = list(itertools.islice(it1, min(1, k)))
+    mid = list(itertools.islice(blk, cap))
+    rest = list(itertools.islice(it1, cap))
+    if ident(head + rest) != ids0 or ident(mid) != ids0:
+        V("interleaved-iterations-interfere", f"an iteration started before and finished after another one yielded "
+          f"{len(head) + len(rest)} items, the inner one {len(mid)}, len() is {k}"); return False
+    pairs = sum(1 for _a in itertools.islice(blk, cap) for _b in itertools.islice(blk, cap))
+    zz = list(itertools.islice(zip(blk, blk), cap))
+    if pairs != k * k or len(zz) != k or any(a_ is not b_ for a_, b_ in zz):
+        V("interleaved-iterations-interfere", f"nested loops over the block gave {pairs} pairs ({k * k} expected), "
+          f"zip(block, block) {len(zz)} pairs"); return False
     # purity
     rec.count("oracle:C18.pure")
     if ident(list(blk)) != ids0 or lib.enc(blk) != x0:
@@ -770,9 +830,88 @@ def shard_c18(desc, rec):
 # ================================================================================================
 # C20
 # ================================================================================================
+
+import datetime as _dt
+import enum as _enum
+import types as _types
+
+_ATOMS = (str, bytes, int, float, complex, bool, type(None), np.generic, np.dtype, _enum.Enum, type, _types.ModuleType,
+          _types.FunctionType, _types.BuiltinFunctionType, _types.MethodType, _dt.datetime, _dt.date, _dt.timedelta, range)
+
+
+def mutable_reach(root):
+    """{id: object} of every *mutable* object reachable from root through instance attributes, containers, object
+    arrays and ndarray bases: lists, dicts, sets, bytearrays, writeable ndarrays, and instances of the library's own
+    classes.  Enum members, dtypes, classes, functions and immutable scalars are not state and are not followed."""
+    mut, seen, stack = {}, set(), [root]
+    while stack:
+        o = stack.pop()
+        if id(o) in seen or isinstance(o, _ATOMS):
+            continue
+        seen.add(id(o))
+        if isinstance(o, np.ndarray):
+            if o.flags.writeable:
+                mut[id(o)] = o
+            if o.base is not None:
+                stack.append(o.base)
+            if o.dtype == object:
+                stack.extend(o.ravel().tolist())
+        elif isinstance(o, (list, set, bytearray)):
+            mut[id(o)] = o
+            if not isinstance(o, bytearray):
+                stack.extend(o)
+        elif isinstance(o, dict):
+            mut[id(o)] = o
+            stack.extend(o.keys()); stack.extend(o.values())
+        elif isinstance(o, (tuple, frozenset)):
+            stack.extend(o)
+        elif (type(o).__module__ or "").startswith("basictdf"):
+            mut[id(o)] = o
+            d = getattr(o, "__dict__", None)
+            if d is not None:
+                stack.extend(d.values())
+            for sl in getattr(type(o), "__slots__", ()):
+                if hasattr(o, sl):
+                    stack.append(getattr(o, sl))
+        elif isinstance(o, memoryview):
+            try:
+                stack.append(o.obj)
+            except Exception:
+                pass
+    return mut
+
+
+def _describe_shared(a, b, shared):
+    """name the attribute path (one level) under which a shared object hangs, for the message"""
+    out = []
+    for o in list(shared.values())[:3]:
+        where = [k for k, v in getattr(a, "__dict__", {}).items() if v is o]
+        out.append(f"{type(o).__name__}{'@.' + where[0] if where else ''}")
+    return ", ".join(out)
+
+
+_SPEC = {}     # id(block) -> spec, for the kinds edited through drivers.edits
+
+
 def _fresh(kind, rng, with_items):
     """separately constructed instance; never shares an argument object with another one"""
     n = 3
+    if kind in ("data2D", "calib"):
+        from basictdf import tdfData2D
+        if kind == "data2D" and not with_items:
+            # the bare constructor, the way a caller starts a block from scratch; only the public data setter is used
+            b = tdfData2D.Data2D(2, 2, 100, 0.0, tdfData2D.Data2DFlags(0))
+            cells = np.empty((2, 2), dtype=object)
+            b.data = cells
+            spec = {"t": "data2D", "format": 1, "nCams": 2, "nFrames": 2, "frequency": 100, "startTime": 0.0, "flags": 0,
+                    "map": [], "cells": [[None, None], [None, None]]}
+        else:
+            spec = C.small_block_spec(rng, kind, rng.choice([0, 1]))
+            if kind == "calib" and not with_items:
+                spec = dict(spec, cams=[], map=[])
+            b = lib.build(spec, {})
+        _SPEC[id(b)] = (b, spec)
+        return b
     if kind == "optical":
         if with_items:
             return tdfOpticalSystem.OpticalSetupBlock(channels=[lib.build_item("optical", {"index": rng.randint(0, 9), "lens": "l", "type": "t", "name": "n%d" % rng.randint(0, 99), "vp": [0, 0, 1, 1]}, {})])
@@ -807,6 +946,10 @@ def _fresh(kind, rng, with_items):
 
 
 def _items(kind, b):
+    if kind == "data2D":
+        return []
+    if kind == "calib":
+        return list(b.cam_data)
     if kind == "optical":
         return list(b.channels)
     if kind == "events":
@@ -834,11 +977,37 @@ def _raw_values(kind, it):
 
 def _snapshot(kind, b):
     its = _items(kind, b)
-    return (ident(its), lib.enc(b), len(its), [_raw_values(kind, it) for it in its])
+    try:
+        x = lib.enc(b)
+    except Exception as e:          # e.g. a 2-D block whose camera map was never filled
+        x = f"unencodable:{type(e).__name__}"
+    extra = None
+    if kind == "data2D":
+        extra = (list(b._camMap), [[None if c is None else np.asarray(c).tobytes() for c in row] for row in np.asarray(b.data, dtype=object).tolist()])
+    elif kind == "calib":
+        extra = [np.asarray(getattr(c, a)).tobytes() for c in its for a in ("focus", "center") if hasattr(c, a)]
+    return (ident(its), x, len(its), [_raw_values(kind, it) for it in its], extra)
 
 
 def _mutate(kind, b, rng):
     """one public mutation of b; returns a description"""
+    if kind in ("data2D", "calib"):
+        from . import edits
+        ent = _SPEC.get(id(b))
+        if ent is None or ent[0] is not b:
+            raise LookupError("no spec")
+        if kind == "data2D" and rng.random() < 0.3:
+            b._camMap.append(rng.randint(0, 9))      # the only way a caller can fill the camera map (tests/test_data2D.py)
+            return "camera-map-append"
+        r_ = None
+        for _ in range(6):
+            r_ = edits.inplace_edit(rng, b, ent[1])
+            if r_:
+                break
+        if not r_:
+            raise LookupError("no edit applicable")
+        _SPEC[id(b)] = (b, r_[1])
+        return r_[0]
     its = _items(kind, b)
     r = rng.random()
     if r < 0.4 or not its:
@@ -894,10 +1063,13 @@ def shard_c20(desc, rec):
     global ALLGAP_P
     ALLGAP_P = 0.3     # wholly-missing tracks / platforms are where decoders are tempted to share a NaN template
     rng = random.Random(desc["seed"] * 89 + desc.get("shard", 0))
-    kinds = ["data3D", "force3D", "emg", "events", "platCal", "platData", "optical"]
+    kinds = ["data3D", "force3D", "emg", "events", "platCal", "platData", "optical", "data2D", "calib"]
+    scratch = env.scratch_dir()
     for i in range(desc["n"]):
         kind = kinds[i % len(kinds)]
         steps = []
+        _SPEC.clear()
+        tainted = set()     # ids of instances the harness itself made share items (tracks handed from one to the other)
         case = {"driver": "c20", "kind": kind, "seed": desc["seed"], "shard": desc.get("shard", 0), "index": i, "steps": steps}
         rec.case({k: v for k, v in case.items() if k != "steps"}, True,
                  sample={k: v for k, v in case.items() if k != "steps"} if i % 200 == 0 else None)
@@ -933,14 +1105,31 @@ def shard_c20(desc, rec):
                     pool.pop(0)
             elif r < 0.4:
                 src = rng.choice(pool)
+                if kind == "data2D" and len(src._camMap) != src.nCams:
+                    continue     # a 2-D block whose camera map is not (yet) one entry per camera is not a valid block
                 x = lib.enc(src)
                 what = "decode-twice"
                 steps.append(what)
-                d1, _ = lib.dec(kind, lib.fmt_of(src), x)
-                d2, _ = lib.dec(kind, lib.fmt_of(src), x)
+                if isinstance(x, bytes) and rng.random() < 0.5:
+                    # ... through a file: two reads of the same stored block, by different accessors, inside ONE
+                    # context of one Tdf object (or in two successive contexts of it)
+                    what = "file-read-twice"
+                    steps[-1] = what
+                    got = _read_twice(rng, kind, src, scratch, steps)
+                    if got is None:
+                        continue
+                    d1, d2 = got
+                    rec.count("c20:file-read-twice")
+                else:
+                    d1, _ = lib.dec(kind, lib.fmt_of(src), x)
+                    d2, _ = lib.dec(kind, lib.fmt_of(src), x)
                 rec.count("oracle:C20.two-decodes-are-two-objects")
                 if d1 is d2 or d1 is src:
                     V("decode-returns-shared-object", "decoding the same bytes twice returned one and the same block object"); ok = False; break
+                ent = _SPEC.get(id(src))
+                if ent is not None and ent[0] is src:
+                    import copy as _copy
+                    _SPEC[id(d1)] = (d1, _copy.deepcopy(ent[1])); _SPEC[id(d2)] = (d2, _copy.deepcopy(ent[1]))
                 pool.extend([d1, d2])
                 pool = pool[-4:]
             elif r < 0.5 and kind in ("data3D", "force3D") and len(pool) >= 2:
@@ -951,6 +1140,7 @@ def shard_c20(desc, rec):
                 what = f"#{b_}.tracks = #{a_}.tracks"
                 steps.append(what)
                 touched = pool[b_]
+                tainted.update((id(pool[a_]), id(pool[b_])))
                 try:
                     pool[b_].tracks = pool[a_].tracks
                 except Exception as e:
@@ -964,8 +1154,10 @@ def shard_c20(desc, rec):
                     what = _mutate(kind, pool[j], rng)
                 except Exception as e:
                     steps.append(f"mutate#{j}:raised {type(e).__name__}")
+                    rec.count(f"c20:mutate-raised:{type(e).__name__}")
                     continue
                 steps.append(f"mutate#{j}:{what}")
+                rec.count(f"c20:mutate:{what}")
             # frame condition: whatever the step was, no instance other than `touched` may have changed
             rec.count("oracle:C20.others-unchanged")
             mine = set(ident(_items(kind, touched))) if touched is not None else set()
@@ -984,6 +1176,81 @@ def shard_c20(desc, rec):
                     break
             if not ok:
                 break
+            # heap monitor: the mutable objects reachable from two separately created instances are disjoint
+            live = [b for b in pool if id(b) not in tainted]
+            reach = [(b, mutable_reach(b)) for b in live]
+            rec.count("oracle:C20.heap-disjoint", max(0, len(reach) * (len(reach) - 1) // 2))
+            for a_i in range(len(reach)):
+                for b_i in range(a_i + 1, len(reach)):
+                    (ba, ra), (bb, rb) = reach[a_i], reach[b_i]
+                    if ba is bb:
+                        continue
+                    sh = {k_: ra[k_] for k_ in ra.keys() & rb.keys()}
+                    if sh:
+                        V("instances-share-mutable-object",
+                          f"after '{what}': two separately created instances both reach the same mutable object(s): "
+                          f"{_describe_shared(ba, bb, sh)}")
+                        ok = False
+                        break
+                if not ok:
+                    break
+            if not ok:
+                break
+        for f_ in list(scratch_files):
+            try:
+                import os as _os
+                _os.unlink(f_)
+            except OSError:
+                pass
+        scratch_files.clear()
+
+
+scratch_files = []
+
+
+def _read_twice(rng, kind, src, scratch, steps):
+    """store src in a fresh file and read it back twice through one Tdf object; returns the two blocks"""
+    import os
+    from basictdf import Tdf
+    path = os.path.join(scratch, f"c20_{os.getpid()}_{len(scratch_files)}_{rng.getrandbits(32):08x}.tdf")
+    scratch_files.append(path)
+    t = Tdf.new(path)
+    with t.allow_write() as w:
+        w.add_block(src)
+    bt = lib.BLOCK_TYPE[kind]
+    attr = C.GETTER.get(kind)
+
+    def read(tt, how):
+        if how == "get_block":
+            return tt.get_block(bt)
+        if how == "property" and attr:
+            return getattr(tt, attr)
+        if how == "index":
+            return tt[0]
+        if how == "blocks":
+            return [b for b in tt.blocks if type(b) is type(src)][0]
+        return tt.get_block(bt)
+    h1, h2 = rng.choice(["get_block", "property", "index", "blocks"]), rng.choice(["get_block", "property", "index", "blocks"])
+    mode = rng.choice(["one-context", "two-contexts", "write-context", "no-context"])
+    steps[-1] = f"file-read-twice({mode}:{h1},{h2})"
+    t2 = Tdf(path)
+    if mode == "one-context":
+        with t2 as tt:
+            return read(tt, h1), read(tt, h2)
+    if mode == "write-context":
+        with t2.allow_write() as tt:
+            return read(tt, h1), read(tt, h2)
+    if mode == "two-contexts":
+        with t2 as tt:
+            d1 = read(tt, h1)
+        with t2 as tt:
+            d2 = read(tt, h2)
+        return d1, d2
+    if h1 in ("index",):
+        h1 = "get_block"
+    if h2 in ("index",):
+        h2 = "get_block"
+    return read(t2, h1), read(t2, h2)
 
 
 SHARDS = {"c15": shard_c15, "c16": shard_c16, "c18": shard_c18, "c20": shard_c20}
